@@ -32,6 +32,78 @@ class Unk:
         return hash(('Unk', self.text))
 
 
+class Hole:
+    """a hole of a string template: the (unknown) value formatted into the string, with its format spec"""
+    __slots__ = ('value', 'spec')
+
+    def __init__(self, value, spec: str = ''):
+        self.value, self.spec = value, spec
+
+    def __repr__(self):
+        return '{' + show(self.value) + (':' + self.spec if self.spec else '') + '}'
+
+
+class Tmpl(Unk):
+    """a string whose shape is known: constant text interleaved with holes (f-strings, `+` of strings, sep.join of a list of
+    known length).  It is an Unk (the text is the f-string spelling) so rules that only compare texts keep working."""
+    __slots__ = ('parts',)
+
+    def __init__(self, parts):
+        merged: List[Any] = []
+        for x in parts:
+            if isinstance(x, str):
+                if not x:
+                    continue
+                if merged and isinstance(merged[-1], str):
+                    merged[-1] += x
+                    continue
+            merged.append(x)
+        self.parts = merged
+        Unk.__init__(self, "f'" + ''.join(x if isinstance(x, str) else repr(x) for x in merged) + "'")
+
+    @staticmethod
+    def of(v) -> Optional['Tmpl']:
+        """the template of a string-like value (None when v cannot be a piece of a string)"""
+        if isinstance(v, Tmpl):
+            return v
+        if isinstance(v, str):
+            return Tmpl([v])
+        if isinstance(v, Unk):
+            return Tmpl([Hole(v)])
+        return None
+
+    def split(self, sep: str) -> List['Tmpl']:
+        """split on a separator that occurs in the constant text only"""
+        out, cur = [], []
+        for x in self.parts:
+            if isinstance(x, str):
+                bits = x.split(sep)
+                cur.append(bits[0])
+                for b in bits[1:]:
+                    out.append(Tmpl(cur))
+                    cur = [b]
+            else:
+                cur.append(x)
+        out.append(Tmpl(cur))
+        return out
+
+    def single(self):
+        """the value of a template that is exactly one hole without format spec (else None)"""
+        if len(self.parts) == 1 and isinstance(self.parts[0], Hole) and not self.parts[0].spec:
+            return self.parts[0].value
+        return None
+
+
+class SymList(Unk):
+    """a list of unknown length whose generic element is known: a comprehension over an unknown iterable (`elt` is the element
+    value with the target bound to `<item of ...>`), or sep.join over such a list (then `sep` is set and the value is a string)"""
+    __slots__ = ('elt', 'src', 'sep')
+
+    def __init__(self, text, elt, src, sep=None):
+        Unk.__init__(self, text)
+        self.elt, self.src, self.sep = elt, src, sep
+
+
 def known(v) -> bool:
     if isinstance(v, Unk):
         return False
@@ -85,7 +157,7 @@ class _State:
 
 
 class PEval:
-    def __init__(self, resolve_const: Callable[[ast.AST], Any] = None, assume: Dict[str, bool] = None, record: Tuple[str, ...] = (),
+    def __init__(self, resolve_const: Callable[[ast.AST], Any] = None, assume: Dict[str, bool] = None, record: Tuple[str, ...] = (), unroll: bool = False,
                  split_unknown=True):
         """resolve_const(expr) -> python value or raises KeyError: module-level / imported constants
         assume: canonical test text (ast.unparse of the test with env substituted) -> forced truth
@@ -94,6 +166,7 @@ class PEval:
         self.assume = assume or {}
         self.record = set(record)
         self.split_unknown = split_unknown
+        self.unroll = unroll
         self.n_out = 0
 
     # ------------------------------------------------------------------ expressions
@@ -135,18 +208,20 @@ class PEval:
                         spec_c = ''.join(str(p_.value) for p_ in v.format_spec.values)
                     if known(x) and v.format_spec is None and v.conversion in (-1, 115):
                         parts.append(str(x))
-                    elif known(x) and spec_c is not None and v.conversion == -1 and isinstance(x, (int, float, str)):
+                        continue
+                    if known(x) and spec_c is not None and v.conversion == -1 and isinstance(x, (int, float, str)):
                         try:
                             parts.append(format(x, spec_c))
+                            continue
                         except Exception:
-                            all_known = False
-                            parts.append('{' + show(x) + ':' + spec_c + '}')
-                    else:
-                        all_known = False
-                        spec = ':' + ''.join(str(p.value) for p in v.format_spec.values if isinstance(p, ast.Constant)) if v.format_spec is not None else ''
-                        parts.append('{' + show(x) + spec + '}')
-            s = ''.join(parts)
-            return s if all_known else Unk("f'" + s + "'")
+                            pass
+                    all_known = False
+                    if isinstance(x, Tmpl) and v.format_spec is None and v.conversion in (-1, 115):
+                        parts.extend(x.parts)
+                        continue
+                    spec = ''.join(str(p.value) for p in v.format_spec.values if isinstance(p, ast.Constant)) if v.format_spec is not None else ''
+                    parts.append(Hole(x, spec))
+            return ''.join(parts) if all_known else Tmpl(parts)
         if isinstance(e, (ast.Tuple, ast.List)):
             xs = [self.ev(x, st) for x in e.elts]
             return tuple(xs) if isinstance(e, ast.Tuple) else xs
@@ -229,6 +304,8 @@ class PEval:
                         return a // b
                 except Exception:
                     pass
+            if isinstance(e.op, ast.Add) and (isinstance(a, Tmpl) or isinstance(b, Tmpl)) and isinstance(a, (Tmpl, str)) and isinstance(b, (Tmpl, str)):
+                return Tmpl(Tmpl.of(a).parts + Tmpl.of(b).parts)
             sym = {ast.Add: '+', ast.Sub: '-', ast.Mult: '*', ast.Mod: '%', ast.FloorDiv: '//', ast.Div: '/'}.get(type(e.op), '?')
             return Unk(f"{self.paren(a)} {sym} {self.paren(b)}")
         if isinstance(e, ast.Subscript):
@@ -256,13 +333,30 @@ class PEval:
             return self.call(e, st)
         if isinstance(e, (ast.ListComp, ast.GeneratorExp, ast.SetComp)) and len(e.generators) == 1 and not e.generators[0].ifs:
             it = self.ev(e.generators[0].iter, st)
-            if not isinstance(it, Unk) and known(it) and isinstance(e.generators[0].target, ast.Name):
+            if not isinstance(it, Unk) and (known(it) or isinstance(it, (list, tuple))) and isinstance(e.generators[0].target, (ast.Name, ast.Tuple)):
                 out = []
                 for x in it:
                     s2 = st.fork()
-                    s2.env[e.generators[0].target.id] = x
+                    self.assign(e.generators[0].target, x, s2)
                     out.append(self.ev(e.elt, s2))
                 return out if not isinstance(e, ast.SetComp) else (set(out) if all(known(x) for x in out) else Unk(ast.unparse(e)))
+            if isinstance(it, Unk) and not isinstance(e, ast.SetComp):
+                s2 = st.fork()
+                item = it.elt if isinstance(it, SymList) and it.sep is None else Unk(f"<item of {show(it)}>")
+                self.assign(e.generators[0].target, item, s2)
+                return SymList(self.subst_text(e, st), self.ev(e.elt, s2), it)
+        if isinstance(e, ast.DictComp) and len(e.generators) == 1 and not e.generators[0].ifs:
+            it = self.ev(e.generators[0].iter, st)
+            if not isinstance(it, Unk) and known(it) and isinstance(it, (list, tuple)):
+                out = {}
+                for x in it:
+                    s2 = st.fork()
+                    self.assign(e.generators[0].target, x, s2)
+                    k = self.ev(e.key, s2)
+                    if not known(k):
+                        return Unk(self.subst_text(e, st))
+                    out[k] = self.ev(e.value, s2)
+                return out
         return Unk(self.subst_text(e, st))
 
     def subst_text(self, e, st) -> str:
@@ -366,6 +460,25 @@ class PEval:
                     return getattr(recv, nm)(*args)
                 except Exception:
                     pass
+            if isinstance(recv, Tmpl) and nm in ('rstrip', 'lstrip', 'strip') and len(args) == 1 and isinstance(args[0], str) and not kwargs and recv.parts:
+                # constant edge text is stripped; a hole at the edge is left as it is (shape of the string, not its exact value)
+                ps = list(recv.parts)
+                if nm in ('rstrip', 'strip') and isinstance(ps[-1], str):
+                    ps[-1] = ps[-1].rstrip(args[0])
+                if nm in ('lstrip', 'strip') and isinstance(ps[0], str):
+                    ps[0] = ps[0].lstrip(args[0])
+                return Tmpl(ps)
+            if isinstance(recv, str) and nm == 'join' and len(args) == 1 and not kwargs:
+                a0 = args[0]
+                if isinstance(a0, (list, tuple)) and all(isinstance(x, (str, Unk)) for x in a0) and not isinstance(a0, Unk):
+                    parts: List[Any] = []
+                    for i, x in enumerate(a0):
+                        if i:
+                            parts.append(recv)
+                        parts.extend(Tmpl.of(x).parts)
+                    return Tmpl(parts) if parts else ''
+                if isinstance(a0, SymList) and a0.sep is None:
+                    return SymList(f"{recv!r}.join({a0.text})", a0.elt, a0.src, sep=recv)
             if isinstance(recv, (dict, list, tuple)) and nm in _CONT_METHODS and all(known(a) for a in args) and not kwargs:
                 try:
                     r = getattr(recv, nm)(*args)
@@ -379,6 +492,8 @@ class PEval:
                 return r
             except Exception:
                 pass
+        if isinstance(f, ast.Name) and nm == 'getattr' and len(c.args) == 2 and not kwargs and isinstance(args[1], str) and args[1].isidentifier():
+            return self.ev(ast.Attribute(value=c.args[0], attr=args[1], ctx=ast.Load()), st)
         if isinstance(f, ast.Name) and nm == 'isinstance' and len(args) == 2 and not isinstance(args[0], Unk) and known(args[0]):
             tn = ast.unparse(c.args[1])
             m = {'str': str, 'int': int, 'list': list, 'tuple': tuple, 'dict': dict, 'set': set, 'bool': bool}
@@ -448,6 +563,8 @@ class PEval:
             v = self.ev(s.value, st)
             st.effects.append(('aug', ast.unparse(s.target), type(s.op).__name__, v))
             new = Unk(f"{show(cur)} {type(s.op).__name__} {show(v)}")
+            if isinstance(s.op, ast.Add) and (isinstance(cur, Tmpl) or isinstance(v, Tmpl)) and isinstance(cur, (Tmpl, str)) and isinstance(v, (Tmpl, str)):
+                new = Tmpl(Tmpl.of(cur).parts + Tmpl.of(v).parts)
             if known(cur) and known(v) and isinstance(s.op, ast.Add):
                 try:
                     new = cur + v
@@ -462,6 +579,11 @@ class PEval:
                 args = [self.ev(a, st) for a in s.value.args]
                 st.effects.append(('call', ast.unparse(s.value.func.value), s.value.func.attr, args))
                 base = self.ev(s.value.func.value, st)
+                if isinstance(base, dict) and isinstance(s.value.func.value, ast.Name) and s.value.func.attr == 'update':
+                    if len(args) == 1 and isinstance(args[0], dict) and not s.value.keywords:
+                        st.env[s.value.func.value.id] = {**base, **args[0]}
+                    else:
+                        st.env[s.value.func.value.id] = Unk(f"<{s.value.func.value.id} after update>")
                 if isinstance(base, list) and isinstance(s.value.func.value, ast.Name) and len(args) == 1:
                     st.env[s.value.func.value.id] = (base + [args[0]]) if s.value.func.attr == 'append' else \
                         ((base + list(args[0])) if s.value.func.attr == 'extend' and isinstance(args[0], (list, tuple)) else Unk(show(v)))
@@ -493,6 +615,28 @@ class PEval:
             # one symbolic iteration: the loop targets are unknown elements of the iterable; loop-carried values keep their
             # pre-loop value on entry (callers look at the effects / stores of the iteration)
             outs = []
+            if isinstance(s, ast.For) and self.unroll:
+                it = self.ev(s.iter, st)
+                if not isinstance(it, Unk) and isinstance(it, (list, tuple)) and known(it) and len(it) <= 32:
+                    states, done = [st], []
+                    for x in it:
+                        nxt = []
+                        for cur in states:
+                            self.assign(s.target, x, cur)
+                            for kind, val, s2 in self.block(s.body, cur):
+                                if kind in ('fall', 'continue'):
+                                    nxt.append(s2)
+                                elif kind == 'break':
+                                    done.append(('fall', None, s2))
+                                else:
+                                    done.append((kind, val, s2))
+                        states = nxt
+                        if len(states) + len(done) > MAX_OUTCOMES:
+                            raise OverflowError('too many outcomes')
+                    res = list(done)
+                    for cur in states:
+                        res += self.block(s.orelse, cur) if s.orelse else [('fall', None, cur)]
+                    return res
             if isinstance(s, ast.For):
                 it = self.ev(s.iter, st)
                 s1 = st.fork()
